@@ -52,6 +52,9 @@ type scenario struct {
 	Global    bool     `json:"global,omitempty"`
 	// fault injection at the backend (recording shim): the FailNth-th Remove fails with EPERM / EBUSY; with FailAlways every
 	// later Remove of that same path fails too (an entry that ordinary means cannot remove)
+	// how the path handed to the library is SPELLED (same file-system object, different string): "" = cleaned absolute path,
+	// trail "p/", trail2 "p//", dottrail "p/.", inner2 "a//b", innerdot "a/./b", updown "outside/../p", rel "./p" (cwd = sandbox), reltrail "./p/"
+	Spelling   string `json:"spelling,omitempty"`
 	FailNth    int    `json:"fail_nth,omitempty"`
 	FailAlways bool   `json:"fail_always,omitempty"`
 	FailErr    string `json:"fail_err,omitempty"`
@@ -314,6 +317,36 @@ func execute(sc scenario) (*outcome, string, error) {
 	if !strings.HasPrefix(target, tmpRoot+"/") || target == tmpRoot {
 		return nil, sandbox, fmt.Errorf("refusing to operate outside the scratch directory: %s", target)
 	}
+	switch sc.Spelling {
+	case "":
+	case "trail":
+		target += "/"
+	case "trail2":
+		target += "//"
+	case "dottrail":
+		target += "/."
+	case "inner2":
+		target = sandbox + "//" + strings.ReplaceAll(sc.Root, "/", "//")
+	case "innerdot":
+		target = sandbox + "/./" + strings.ReplaceAll(sc.Root, "/", "/./")
+	case "updown":
+		target = sandbox + "/outside/../" + sc.Root // "outside" is a real directory in every scenario
+	case "rel", "reltrail":
+		wd, err := os.Getwd()
+		if err != nil {
+			return nil, sandbox, err
+		}
+		if err := os.Chdir(sandbox); err != nil {
+			return nil, sandbox, err
+		}
+		defer func() { _ = os.Chdir(wd) }()
+		target = "./" + sc.Root
+		if sc.Spelling == "reltrail" {
+			target += "/"
+		}
+	default:
+		return nil, sandbox, fmt.Errorf("unknown spelling %q", sc.Spelling)
+	}
 	var dur time.Duration
 	switch sc.GC {
 	case "all":
@@ -356,6 +389,11 @@ func execute(sc scenario) (*outcome, string, error) {
 		return nil, sandbox, errNoReturn
 	}
 	after, err := snapshot(sandbox)
+	for try := 0; err != nil && try < 5; try++ {
+		// goroutines of a garbage collection that returned early may still be deleting: let them finish
+		time.Sleep(100 * time.Millisecond)
+		after, err = snapshot(sandbox)
+	}
 	if err != nil {
 		return nil, sandbox, err
 	}
@@ -437,6 +475,9 @@ func oracle(r *h.Run, sc scenario, o *outcome, sandbox string) {
 			}
 			rel := ""
 			cp := filepath.Clean(pp)
+			if !filepath.IsAbs(cp) {
+				cp = filepath.Join(sandbox, cp) // relative spellings are run with the sandbox as working directory
+			}
 			if cp != sandbox {
 				if !strings.HasPrefix(cp, sandbox+"/") {
 					r.Fail("mutation-outside-sandbox:"+cls, fmt.Sprintf("%s on %q", op.Name, pp), sc)
@@ -657,7 +698,8 @@ func emitCase(r *h.Run, sc scenario, o *outcome) {
 			}
 		}
 	}
-	term := fmt.Sprintf("mkCase %s %s %s %s %s %s %s %s %s %s", h.List(ts), in.path(sc.Root), op, h.List(pts),
+	trailing := sc.Spelling == "trail" || sc.Spelling == "trail2" || sc.Spelling == "dottrail" || sc.Spelling == "reltrail"
+	term := fmt.Sprintf("mkCase %s %s %s %s %s %s %s %s %s %s %s", h.List(ts), in.path(sc.Root), h.Bool(trailing), op, h.List(pts),
 		h.Bool(sc.Cancelled && usesCtx(sc.Op)), h.List(olds), h.Bool(sc.GC == "all"), h.Bool(o.ErrNil), h.List(removed), h.Bool(same))
 	r.Case(in.wrap(term), sc)
 }
@@ -691,6 +733,9 @@ func runScenario(r *h.Run, sc scenario, emit bool) {
 	}
 	r.Count(fmt.Sprintf("links-in-tree=%d", min(nl, 6)))
 	r.Count(fmt.Sprintf("patterns=%d", len(effectivePatterns(sc))))
+	if sc.Spelling != "" {
+		r.Count("spelling=" + sc.Spelling)
+	}
 	if o.ErrNil {
 		r.Count("result=nil:" + cls)
 	} else {
@@ -711,7 +756,7 @@ func runScenario(r *h.Run, sc scenario, emit bool) {
 		}
 	}
 	r.Sample(map[string]any{"op": sc.Op, "root": sc.Root, "entries": len(sc.Entries), "links_in_tree": nl, "patterns": effectivePatterns(sc),
-		"cancelled": sc.Cancelled, "gc": sc.GC, "err": o.ErrText, "entries_removed": removed, "backend_ops": len(o.Log)})
+		"cancelled": sc.Cancelled, "gc": sc.GC, "spelling": sc.Spelling, "err": o.ErrText, "entries_removed": removed, "backend_ops": len(o.Log)})
 	if sc.FailNth > 0 {
 		r.Count("fault-injected(oracle only):" + cls)
 		if !o.ErrNil {
@@ -811,6 +856,26 @@ func corpus() []scenario {
 		for _, always := range []bool{false, true} {
 			out = append(out, scenario{Entries: fw, Root: root, Op: "RemoveWithPrivileges", FailNth: 1, FailAlways: always})
 			out = append(out, scenario{Entries: fw, Root: root, Op: "Rm", FailNth: 1, FailAlways: always})
+		}
+	}
+	// the same object under different SPELLINGS of its path: a trailing separator (or "/.") makes the OS follow a link
+	spellings := []string{"trail", "trail2", "dottrail", "inner2", "innerdot", "updown", "rel", "reltrail"}
+	for _, sp := range spellings {
+		tr := sp == "trail" || sp == "trail2" || sp == "dottrail" || sp == "reltrail"
+		for _, op := range rmOps {
+			for _, root := range []string{"tree/sub/link", "tree/tofile", "tree/dangling", "tree/sub/deep/up", "tree", "tree/sub", "tree/a", "tree/absent"} {
+				if tr && (root == "tree/a" || root == "tree/tofile") {
+					continue // "file/" names nothing (ENOTDIR): no demand
+				}
+				out = append(out, scenario{Entries: fw, Root: root, Op: op, Spelling: sp})
+			}
+		}
+		out = append(out, scenario{Entries: fw, Root: "tree/sub/link", Op: "RemoveWithPrivileges", Spelling: sp, FailNth: 1})
+		out = append(out, scenario{Entries: fw, Root: "tree/sub/link", Op: "RemoveWithPrivileges", Spelling: sp, FailNth: 1, FailAlways: true})
+		out = append(out, scenario{Entries: fw, Root: "tree/sub/link", Op: "RemoveWithContextAndExclusionPatterns", Spelling: sp, Patterns: []string{"link"}})
+		for _, op := range append(append([]string{}, cleanOps...), gcOps...) {
+			out = append(out, scenario{Entries: fw, Root: "tree", Op: op, Spelling: sp, GC: "all"})
+			out = append(out, scenario{Entries: fw, Root: "tree/sub", Op: op, Spelling: sp, GC: "all"})
 		}
 	}
 	// mutual loop, link chain, links only, empty tree, missing root, file root
@@ -997,6 +1062,26 @@ func gen(r *h.Run, thoroughShape bool) scenario {
 	}
 	if rng.Intn(15) == 0 && !sc.Cancelled {
 		sc.Global = true
+	}
+	if rng.Intn(4) == 0 {
+		sp := []string{"trail", "trail2", "dottrail", "inner2", "innerdot", "updown", "rel", "reltrail"}[rng.Intn(8)]
+		tr := sp == "trail" || sp == "trail2" || sp == "dottrail" || sp == "reltrail"
+		isFile := false
+		for _, e := range es {
+			if e.Path == sc.Root && e.Kind == "f" {
+				isFile = true
+			}
+			if e.Path == sc.Root && e.Kind == "l" {
+				for _, t := range es {
+					if t.Path == e.Target && t.Kind == "f" {
+						isFile = true
+					}
+				}
+			}
+		}
+		if !(tr && isFile) {
+			sc.Spelling = sp
+		}
 	}
 	if !sc.Global && opClass(sc.Op) != "gc" && rng.Intn(6) == 0 {
 		sc.FailNth = 1 + rng.Intn(6)
